@@ -277,7 +277,7 @@ def norm_cmd(gen, cmd):
 
 def cases(tier, seed):
     rnd = random.Random(f"C19/{tier}/{seed}")
-    n = 150 if tier == "quick" else 8000
+    n = 150 if tier == "quick" else 40000
     for _ in range(n):
         yield {"seed": rnd.randrange(1 << 30), "n": rnd.randint(1, 40)}
 
